@@ -179,13 +179,14 @@ impl RotoReport {
                 }
                 RotoError::Type(error) => {
                     let file = self.filename(self.spans.get(error.location));
-                    let file_text = file_cache.fetch(&file).unwrap().text();
 
+                    // A label can be in another file than the error itself,
+                    // so each span is converted with the text of its own file.
                     let labels = error.labels.iter().map(|l| {
                         let s = self.spans.get(l.id);
                         Label::new((
                             self.filename(s),
-                            s.character_range(file_text),
+                            s.character_range(self.text(s)),
                         ))
                         .with_message(&l.message)
                         .with_color(match l.level {
@@ -197,7 +198,7 @@ impl RotoReport {
                     let span = self.spans.get(error.location);
                     let mut report = Report::build(
                         ReportKind::Error,
-                        (file, span.character_range(file_text)),
+                        (file, span.character_range(self.text(span))),
                     )
                     .with_config(config)
                     .with_message(format!(
@@ -245,6 +246,11 @@ impl std::fmt::Debug for RotoReport {
 impl RotoReport {
     fn filename(&self, s: Span) -> String {
         self.files[s.file].name()
+    }
+
+    /// The text of the file that the span is in
+    fn text(&self, s: Span) -> &str {
+        &self.files[s.file].contents
     }
 }
 
